@@ -99,6 +99,11 @@ func VerifC09Lookups() {
 	prune := verifParam("prune", 0) // scaled prune depth (0: unscaled, nothing is ever pruned)
 	h := newHist(1000)
 	acc := []bool{true}
+	if verifParam("rich", 0) == 1 {
+		for range h.richState() {
+			acc = append(acc, true)
+		}
+	}
 	for s := 0; s < steps; s++ {
 		op := pick(fmt.Sprintf("op%d", s), ops)
 		switch op {
